@@ -393,9 +393,19 @@ def plan(tier):
     ]
 
 
+FALSY_PLAN = [(OPS, (2,), 2, 2, False, "uniform", "grid")]
+
+
 def all_cases(tier, seed):
-    alphas = value_alphabets(seed)
-    for (ops_, arities, N, nvals, sit, hotpol, shiftpol) in plan(tier):
+    yield from cases_for(plan(tier), value_alphabets(seed))
+    if seed % 3 != 1:
+        # whatever the seed chose, two-source cases over *falsy* elements are always covered (None, 0, False, "" as last / only
+        # values: the "has this source produced a value" shortcut)
+        yield from cases_for(FALSY_PLAN, value_alphabets(1))
+
+
+def cases_for(plan_, alphas):
+    for (ops_, arities, N, nvals, sit, hotpol, shiftpol) in plan_:
         for n in arities:
             menus_cold = [source_menu(N, nvals, sit, p, alphas, (False,), shiftpol) for p in range(n)]
             menus_hot = [source_menu(N, nvals, sit, p, alphas, (True,), shiftpol) for p in range(n)]
